@@ -432,8 +432,9 @@ class Profiles:
             elif isinstance(profiles, str):
                 profiles = (profiles,)
             for profilename in reversed(profiles):
-                # check given profiles
-                if name in self._profilesProperties[profilename]:
+                # check given profiles, a profile which is not registered
+                # (e.g. it has been removed) cannot match
+                if name in self._profilesProperties.get(profilename, ()):
                     validate = self._profilesProperties[profilename][name]
                     try:
                         if validate(value):
